@@ -94,7 +94,7 @@ What the seeded changes made me strengthen (each was a miss or an "undecided" be
   `O-C02-dispatch-open` was not tagged C18: split out as `O-C18-dispatch-open-counts-nothing`; Kani
   `O-C18-k-(d)dispatch-open-no-error`; the lock group is now also run for C18.
 
-Harmless edits (`seeded/benign/*.diff`, written by me): %s. They compile, pass the suite, keep
+Harmless edits (`seeded/benign/*.diff`; `b*` written by me, `a_*` by sub-agents that were given the property texts and asked for behaviour-preserving refactors of one area each): %s. They compile, pass the suite, keep
 every property, and `tools/benignrun.sh` runs all 18 checks against each: no check prints a VIOLATION line.
 Most verify completely (exit 0 everywhere); where an edit leaves the Verus subset or loses an anchor the
 properties of that function end *undecided* (exit 2), never as an alarm: `b10_drain_loop` (`Vec::drain`),
@@ -112,6 +112,14 @@ the machinery, never in the properties:
   classed undecided for that function;
 * subscribers released in reverse order at shutdown (`b19`) → the witness suite `loop` compared the order of the
   release events, which no property states → compared as a set;
+* `close()` rewritten with a named guard, `match sender.take()`, early return and an explicit `drop(sender)`
+  (`a_b1c_1`, written by a sub-agent asked for harmless refactors) → two alarms at once: Verus ignored the write through
+  the named guard and reported `O-C04-close-closes` as failed, and the Kani stub that leaks the crossbeam sender in
+  `drop(tx)` also leaked the guard in `drop(sender)`, so `O-C04-k-close-unlocks` failed → writes through guards that no
+  rewrite rule covers now make the function undecided; the stub leaks only values of the sender's type;
+* the Exit marker sent after the sender slot has been emptied under the lock, and subscribers released after the list has
+  been detached under the lock (`b32`, `b33`, found by review of my own Kani obligations) → "under the lock" became
+  "under the lock, or after it has been taken out of the shared cell under the lock";
 * (found by review, not by an edit) the model pinned `action_executed`, `effect_executed`, `state_notified`,
   `subscriber_notified` and "the shutdown marker counts as received" → only the counters of the balance
   equations are modelled, the marker may or may not be booked.
